@@ -50,10 +50,60 @@ Theorem C12_calc2_static_q2_wsa_via : forall id c s i, static_q2 (wsa_via id c s
 Proof. exact static_q2_wsa_via. Qed.
 Print Assumptions C12_calc2_static_q2_wsa_via.
 
+(* [stage 5] get_allocator: allocate() obtains its memory from exactly the allocator visible at that point - the
+   fold of the with_allocator overrides along the path to that allocate node, the root receiver's allocator 0
+   otherwise - and returns it to the same allocator (on destruction, and when a connect below throws) *)
+Theorem C12_calc2_alloc_visible : forall e pre script a,
+  In (XT (TAlloc a)) (r_tr (exec e pre script)) \/ In (XT (TFree a)) (r_tr (exec e pre script)) ->
+  alloc_at e 0%nat a.
+Proof. exact alloc_visible. Qed.
+Print Assumptions C12_calc2_alloc_visible.
+
+Theorem C12_calc2_alloc_static : forall e pre script a,
+  In (XT (TAlloc a)) (r_tr (exec e pre script)) \/ In (XT (TFree a)) (r_tr (exec e pre script)) ->
+  In a (static_allocs e).
+Proof. exact alloc_static. Qed.
+Print Assumptions C12_calc2_alloc_static.
+
+Theorem C12_calc2_alloc_innermost : forall e pre script a,
+  In (XT (TAlloc a)) (r_tr (exec e pre script)) \/ In (XT (TFree a)) (r_tr (exec e pre script)) ->
+  exists p, alloc_path e p /\ a = inner_al (rev p) 0%nat.
+Proof. exact alloc_innermost. Qed.
+Print Assumptions C12_calc2_alloc_innermost.
+
+Theorem C12_calc2_alloc_at_in : forall e al a, alloc_at e al a -> In a (allocs_from e al).
+Proof. exact alloc_at_in. Qed.
+Print Assumptions C12_calc2_alloc_at_in.
+Theorem C12_calc2_in_alloc_at : forall e al a, In a (allocs_from e al) -> alloc_at e al a.
+Proof. exact in_alloc_at. Qed.
+Print Assumptions C12_calc2_in_alloc_at.
+
+(* the invariant behind it: every node state of every reachable state - also of completed operations that are
+   kept until their parent destroys them - remembers the statically visible allocator *)
+Theorem C12_calc2_run_ia : forall e pre script,
+  awf e 0%nat (r_st (run e pre script)) /\ Forall (xaok e) (r_tr (run e pre script)).
+Proof. exact run_ia. Qed.
+Print Assumptions C12_calc2_run_ia.
+
 (* every event of every run concerns a leaf / schedule operation of the expression; no TLeak *)
 Theorem C12_calc2_run_events_ok : forall e pre script, Forall (xok e) (r_tr (exec e pre script)).
 Proof. exact run_events_ok. Qed.
 Print Assumptions C12_calc2_run_events_ok.
+
+Example C12_calc2_alloc_ex :
+  let ex := Un (UWithAlloc 3) (Bin BWhenAll (Un UAllocate (Leaf 1))
+                 (Un (UWithAlloc 5) (Bin BSeq (Un UAllocate (LeafN 2)) (Un UAllocate (LeafC 9))))) in
+  static_allocs ex = [3; 5; 5]%nat /\
+  (* blocks from 3 and 5; the successor's connect throws: its block goes back to 5 at once; the first block of 5 was
+     returned when sequence destroyed its predecessor; the block of 3 when the owner destroys the root operation *)
+  r_tr (exec ex false [EvLeaf 2 (OVal 1) 0; EvLeaf 1 (OVal 1) 0]) =
+    [XT (TAlloc 3); XT (TLeafStart 1 false true 0 0 0 0); XT (TAlloc 5); XT (TLeafStart 2 false true 0 0 0 0);
+     XT (TLeafDtor 2); XT (TFree 5); XT (TAlloc 5); XT (TFree 5); XT (TLeafStop 1); XRoot (OErr 78) 0 0; XRootDtor;
+     XT (TLeafDtor 1); XT (TFree 3)] /\
+  (* connect of the whole expression throws: both blocks are unwound to their own allocators *)
+  r_tr (exec (Un UAllocate (Un (UWithAlloc 4) (Un UAllocate (LeafC 1)))) false []) =
+    [XT (TAlloc 0); XT (TAlloc 4); XT (TFree 4); XT (TFree 0); XConnectThrow].
+Proof. vm_compute. repeat split. Qed.
 
 Example C12_calc2_ex :
   let ex :=
